@@ -367,7 +367,7 @@ impl Prop for C14 {
     }
     fn cases(&self, tier: Tier) -> usize {
         match tier {
-            Tier::Quick => 2400,
+            Tier::Quick => 4000,
             Tier::Thorough => 60000,
         }
     }
